@@ -139,7 +139,14 @@ func newGenericObjectSetController(
 		},
 	)
 
-	controller.teardownHandler = phasesReconciler
+	sliceLoader := newObjectSliceLoadReconciler(scheme, client, newObjectSlice)
+
+	// Deletion and archival are handled before the reconciler loop below,
+	// so teardown has to load the ObjectSlices on its own.
+	controller.teardownHandler = &sliceLoadingTeardownHandler{
+		loader: sliceLoader,
+		next:   phasesReconciler,
+	}
 
 	controller.reconciler = []reconciler{
 		&revisionReconciler{
@@ -147,7 +154,7 @@ func newGenericObjectSetController(
 			client:       client,
 			newObjectSet: newObjectSet,
 		},
-		newObjectSliceLoadReconciler(scheme, client, newObjectSlice),
+		sliceLoader,
 		phasesReconciler,
 	}
 
